@@ -154,13 +154,34 @@ class SimpleTypes:
                 v = self.prog.const(a[1], a[0].module, None, a[0])
         return v
 
+    API = ("convert_to_xml", "convert_from_xml", "validate", "to_xml", "from_xml", "validate_int", "validate_int_in_range",
+           "validate_string", "validate_float_in_range", "validate_float")
+
+    def _canon_body(self, f):
+        """statements of f in canonical form: helpers of the module inlined (the simple-type API itself stays as calls, the engine
+        follows those by delegation)"""
+        if not hasattr(self, "_canon_cache"):
+            self._canon_cache = {}
+        if f not in self._canon_cache:
+            from .inline import expand
+
+            try:
+                skip = set(self.API)
+                for c in self.prog.modules["pptx.oxml.simpletypes"].classes.values():
+                    skip |= {n for n in c.methods if n.startswith(("convert_", "validate", "to_xml", "from_xml"))}
+                node = expand(self.prog, f, depth=3, local_only=True, skip_names=tuple(sorted(skip)))
+            except Exception:  # noqa: BLE001
+                node = f.node
+            self._canon_cache[f] = node
+        return list(self._canon_cache[f].body)
+
     def _is_value(self, e, env):
         return isinstance(e, ast.Name) and env.get(e.id) == "VALUE"
 
     def _run_validate(self, f, cls, acc, env, depth):
         if depth > 10:
             raise AnalysisError("validate recursion too deep in %s" % cls.name)
-        body = list(f.node.body)
+        body = self._canon_body(f)
         if body and isinstance(body[0], ast.Expr) and isinstance(body[0].value, ast.Constant):
             body = body[1:]
         self._validate_block(body, f, cls, acc, env, depth)
@@ -363,7 +384,7 @@ class SimpleTypes:
             raise AnalysisError("convert_to_xml recursion in %s" % cls.name)
         pname = f.params[1] if len(f.params) > 1 else None
         env = {pname: ("val", self._start_ival(acc), acc)}
-        body = [s for s in f.node.body if not (isinstance(s, ast.Expr) and isinstance(s.value, ast.Constant))]
+        body = [s for s in self._canon_body(f) if not (isinstance(s, ast.Expr) and isinstance(s.value, ast.Constant))]
         out = self._to_xml_block(body, f, cls, env, depth)
         if out is None:
             raise AnalysisError("%s.convert_to_xml: no return recognised" % cls.name)
@@ -598,7 +619,7 @@ class SimpleTypes:
             raise AnalysisError("delegated convert_to_xml not found")
         pname = t.params[1]
         env = {pname: val}
-        body = [s for s in t.node.body if not (isinstance(s, ast.Expr) and isinstance(s.value, ast.Constant))]
+        body = [s for s in self._canon_body(t) if not (isinstance(s, ast.Expr) and isinstance(s.value, ast.Constant))]
         out = self._to_xml_block(body, t, tcls, env, depth)
         if out is None:
             raise AnalysisError("%s.convert_to_xml: no return recognised" % tcls.name)
@@ -618,7 +639,7 @@ class SimpleTypes:
             raise AnalysisError("convert_from_xml recursion")
         pname = f.params[1]
         env = {pname: ("lex", shape)}
-        body = [s for s in f.node.body if not (isinstance(s, ast.Expr) and isinstance(s.value, ast.Constant))]
+        body = [s for s in self._canon_body(f) if not (isinstance(s, ast.Expr) and isinstance(s.value, ast.Constant))]
         return self._from_block(body, f, cls, env, depth)
 
     def _from_block(self, body, f, cls, env, depth):
@@ -651,6 +672,23 @@ class SimpleTypes:
         return None
 
     def _lex_cond(self, t, f, cls, env):
+        if isinstance(t, ast.UnaryOp) and isinstance(t.op, ast.Not):
+            return not self._lex_cond(t.operand, f, cls, env)
+        if isinstance(t, ast.Call) and isinstance(t.func, ast.Name) and t.func.id in ("any", "all") and len(t.args) == 1 \
+                and isinstance(t.args[0], (ast.GeneratorExp, ast.ListComp)) and len(t.args[0].generators) == 1 \
+                and isinstance(t.args[0].generators[0].target, ast.Name) and not t.args[0].generators[0].ifs:
+            g = t.args[0].generators[0]
+            items = self.prog.const(g.iter, f.module, None, cls)
+            if isinstance(items, (str, tuple, list)):
+                import copy
+
+                res = []
+                for it in items:
+                    class Sub(ast.NodeTransformer):
+                        def visit_Name(self_, n):
+                            return ast.copy_location(ast.Constant(value=it), n) if n.id == g.target.id else n
+                    res.append(self._lex_cond(Sub().visit(copy.deepcopy(t.args[0].elt)), f, cls, env))
+                return any(res) if t.func.id == "any" else all(res)
         if isinstance(t, ast.BoolOp):
             vals = [self._lex_cond(v, f, cls, env) for v in t.values]
             return any(vals) if isinstance(t.op, ast.Or) else all(vals)
@@ -771,7 +809,7 @@ class SimpleTypes:
                     if a[1][0] != "lex":
                         return ("ok", ("num", None))
                     pname = target.params[1]
-                    body = [s for s in target.node.body
+                    body = [s for s in self._canon_body(target)
                             if not (isinstance(s, ast.Expr) and isinstance(s.value, ast.Constant))]
                     r = self._from_block(body, target, tcls, {pname: a[1]}, depth + 1)
                     if r is None:
